@@ -59,6 +59,7 @@ class FillRequestSeq(lena_sequence.LenaSequence):
         #         "unknown kwargs {}".format(kwargs)
         #     )
 
+        self._name = "FillRequestSeq"  # for repr
         ##| not sure now. Why is it not documented?
         # `-> *args* can consist of one tuple,
         #     which in that case is expanded.
